@@ -8,6 +8,11 @@
 (* spelling of the request's keys (event field spell; stored = the canaries that reached the task     *)
 (* record, i.e. the decoder accepted the spelling) and whatever the answer code of a get / list (a    *)
 (* get whose store read failed - fault 1 / 90, fault_hit - is still a get answer).                    *)
+(* The same holds for the SHAPE of the credential values (event fields shape, shaped; stored_shaped =  *)
+(* the fields whose odd-shaped value reached the task record unchanged): log_leak / resp_leak name a   *)
+(* credential when the text contains its raw bytes, its recognisable core, a base64 form of either, or *)
+(* a %q / JSON-escaped / U+FFFD rendering of the whole value - a credential printed with one byte       *)
+(* escaped is still written to the log.  The clauses are not relaxed for an odd shape.                  *)
 (* Known findings (env KF_<name>) allow log leaks of exactly the shape they describe:                 *)
 (*   C18_CREATE_FAIL_LOGS_REQUEST  a create that is not answered with 200 logs its request            *)
 (*   C18_CONNECT_FAIL_LOGS_PARAM   a create whose connection probe fails logs the connect parameters  *)
@@ -49,6 +54,7 @@ TStep ==
            explained == UNION {Explains(n, e) : n \in used}
        IN /\ e.i = l /\ (l = Len(Traces[tr].events) => e.n = l)     \* the trace is complete: no event lost
           /\ ~e.broken
+          /\ e.shape \in AllShapes /\ ToSet(e.shaped) \subseteq All /\ (e.shape = "plain" <=> e.shaped = <<>>)
           \* NoRespLeak
           /\ e.op \in {"get", "list"} => ToSet(e.resp_leak) \cap Judged = {}
           \* NoLogLeak (up to the known findings that are switched on)
